@@ -14,9 +14,10 @@ CONSTANTS
     IdentityEvict = TRUE
     CloseReleasesBlob = TRUE
     CloseFiles = TRUE
+    StampOnlyOnSuccess = TRUE
 INIT Init
 NEXT Next
 VIEW core
 INVARIANTS HeldLayerServes AllReleasedAndEvictedFreesEverything ClosedMeansGone NoOpenFilesAfterClose FailedResolveLeaksNothing RefsAccount LockOK CachedIsLive
-PROPERTIES ReadWorks ReturnedIsCached NoDuplicateCreation ResolveAgainWorks
+PROPERTIES ReadWorks ReturnedIsCached NoDuplicateCreation ResolveAgainWorks CheckNotFooled
 CHECK_DEADLOCK FALSE
